@@ -996,6 +996,13 @@ spifconf_parse_line(FILE * fp, spif_charptr_t buff)
               }
               strcpy((char *) fname, "Eterm-preproc-");
               fd = spiftool_temp_file(fname, PATH_MAX);
+              if (fd < 0) {
+                  /* No file to send the output to (fname still holds the bare template).
+                     Do not run the command; carry on with the original file. */
+                  libast_print_error("Parsing file %s, line %lu:  Unable to create a temporary file for %%preproc (%s), continuing\n",
+                              file_peek_path(), file_peek_line(), strerror(errno));
+                  break;
+              }
               outfile = (spif_charptr_t) STRDUP(fname);
               snprintf((char *) cmd, PATH_MAX, "%s < %s > %s",
                        spiftool_get_pword(2, buff), file_peek_path(), fname);
